@@ -215,6 +215,21 @@ def run(ctx):
         ctx.compare("tok", reqs, reals, [tok_corr.drop_invalid_line(x) if False else x for x in lean.run_driver(reqs)])
 
 
+def fallback_class(cp, text, serialized, decoded):
+    """recorded class of a failed round trip of `text` (which contains chr(cp) once), or None.  The recorded defect and
+    nothing else: the character was written as the hexadecimal numeric reference of its own code point, and the decoded
+    text is the original with exactly that character replaced by what the standard's numeric-reference rule gives for
+    the code point (C1 table entry / U+FFFD for a surrogate); everything else must have survived."""
+    ch = chr(cp)
+    if text.count(ch) != 1 or ("&#x%x;" % cp) not in serialized:
+        return None
+    if cp in C1 and decoded == text.replace(ch, chr(C1[cp])):
+        return "roundtrip-numeric-fallback-c1-remap"
+    if 0xD800 <= cp <= 0xDFFF and decoded == text.replace(ch, "\ufffd"):
+        return "roundtrip-numeric-fallback-surrogate"
+    return None
+
+
 def roundtrip_case(ctx, cp):
     """text serialized with entity replacement for an output encoding decodes back to the same text"""
     import html5lib
@@ -241,21 +256,11 @@ def roundtrip_case(ctx, cp):
             continue
         ctx.case("roundtrip-attr", "%d|%s" % (cp, tail))
         if got != val:
-            if cp in C1:
-                cls = "roundtrip-numeric-fallback-c1-remap"
-            elif 0xD800 <= cp <= 0xDFFF:
-                cls = "roundtrip-numeric-fallback-surrogate"
-            else:
-                cls = "roundtrip-attr:%x" % cp
+            cls = fallback_class(cp, val, o2, got) or "roundtrip-attr:%x" % cp
             ctx.fail(cls, "an attribute value serialized with entity replacement does not decode back to itself",
                      {"codepoint": cp, "serialized": o2, "decoded": repr(got)})
     if back != "a" + ch + "b":
-        if cp in C1:
-            cls = "roundtrip-numeric-fallback-c1-remap"
-        elif 0xD800 <= cp <= 0xDFFF:
-            cls = "roundtrip-numeric-fallback-surrogate"
-        else:
-            cls = "roundtrip:%x" % cp
+        cls = fallback_class(cp, "a" + ch + "b", out, back) or "roundtrip:%x" % cp
         ctx.fail(cls, "text serialized with entity replacement does not decode back to itself",
                  {"codepoint": cp, "serialized": out, "decoded": repr(back)})
 
